@@ -123,7 +123,7 @@ def spec_check(lines):
                     if (f & 1) != vb:
                         return ('cycle %d of the case (LCD %s, k=%d): VBlank request bit = %d, the statement says %d'
                                 % (cyc, 'on' if lcd.on else 'off', lcd.k, f & 1, vb))
-                    if (not lcd.on or single(lcd.stat)) and st is not None and (f >> 1) != st:
+                    if (not lcd.on or single(lcd.stat) or (lcd.stat & 0x78) == 0) and st is not None and (f >> 1) != st:
                         return ('cycle %d of the case (LCD %s, k=%d, position %d = line %d dot %d, STAT enables '
                                 '0x%02x, LYC %d): STAT request bit = %d, the statement says %d'
                                 % (cyc, 'on' if lcd.on else 'off', lcd.k, L.pos(lcd.k), L.pos(lcd.k) // 114,
@@ -132,6 +132,9 @@ def spec_check(lines):
 
 
 def judge(case, impl, model):
+    if any(l.startswith('PANIC') for l in (impl or [])) and not any(l.startswith('PANIC') for l in (model or [])):
+        return 'implementation panics (%s) where the model, proved never to crash on any history, does not' % \
+            [l for l in impl if l.startswith('PANIC')][0]
     dev = spec_check(impl or [])
     if dev:
         return 'implementation violates the request instants of the statement (LcdSpec closed forms): ' + dev
